@@ -219,15 +219,11 @@ def _probe_interior(fmt, BT, comment):
             return f"c\t{7 + k}\t.\tA\tC\t.\t.\t."
         return "\t".join(str(7 + k) if kind == "int" else _PROBE_CELL[kind] for _, kind in F["cols"])
     text = row(0) + "\n" + chr(comment) + "x\n" + row(1) + "\n"
-    import logging
-    logging.disable(logging.CRITICAL)
-    try:
+    try:                                           # (logging is silenced by regenerate())
         d = BT.from_raw_buffer(np.frombuffer(text.encode(), dtype=np.uint8)).get_data()
         return len(d) == 2
     except Exception:
         return False
-    finally:
-        logging.disable(logging.NOTSET)
 
 
 def _probe_kline(BT, nl):
@@ -295,11 +291,39 @@ def tabulate():
     return out, consts
 
 
+GT_PROBE_SYMBOLS = "0123.|/A"
+
+
+def tabulate_genotypes():
+    """what the genotype-matrix reader shows for EVERY three-byte sample field over `GT_PROBE_SYMBOLS` (alleles inside
+    and outside the supported alphabet, both separators, a letter) - [] when the field is rejected -, observed by parsing
+    one one-record VCF text per field through the public buffer type"""
+    import itertools
+    import numpy as np
+    BT = _buffer_type("VCFMatrixBuffer")
+    trip = ["".join(t) for t in itertools.product(GT_PROBE_SYMBOLS, repeat=3)]
+    out = []
+    for t in trip:
+        body = f"c\t1\t.\tA\tC\t.\t.\t.\tGT\t{t}\n"
+        try:
+            d = BT.from_raw_buffer(np.frombuffer(body.encode(), dtype=np.uint8)).get_data()
+            got = _canon_col(d.genotypes)
+            assert len(got) == 1 and len(got[0]) == 1
+            shown = [ord(ch) for ch in got[0][0]]
+        except AssertionError:
+            raise
+        except Exception:
+            shown = []                                   # the field is rejected
+        out.append(([ord(ch) for ch in t], shown))
+    return out
+
+
 def regenerate():
     import logging
     logging.disable(logging.CRITICAL)      # the VCF probes make the package log "No header data found ..."
     try:
         tabs, consts = tabulate()
+        gts = tabulate_genotypes()
     finally:
         logging.disable(logging.NOTSET)
     o = ["import BnpVerif.Model.C02",
@@ -315,6 +339,9 @@ def regenerate():
     o.append("def all : List (String × Schema) := [" + ", ".join(f'("{f}", {f})' for f in tabs) + "]\n")
     for k, v in consts.items():
         o.append(f"def {k} : Int := {v}")
+    o.append("\n/-- genotype matrix reader: (sample field, what the reader shows for it; [] = rejected) for every three-byte field over "
+             f"{GT_PROBE_SYMBOLS!r} -/")
+    o.append("def gtTable : List (List Nat × List Nat) := [" + ", ".join(f"({a}, {b})" for a, b in gts) + "]")
     o.append("\nend Gen.C02\n")
     return [("BnpVerif/Gen/C02.lean", "\n".join(o))]
 
@@ -602,6 +629,26 @@ def g_colheader(rng, fmt, big):
     return ["\t".join(nm for nm, _ in FORMATS[fmt]["cols"])] + ["\t".join(g_cell(rng, k, mode) for k in kinds) for _ in range(n)]
 
 
+def g_vcf_many_alleles(rng, flavour):
+    """valid VCF records whose sample genotypes lie partly OUTSIDE the subset the genotype-matrix buffer type supports:
+    allele numbers above 2 (above 1 / above 4 for the phased flavours), unphased or missing calls for the phased ones"""
+    head = ["##fileformat=VCFv4.2", "#CHROM\tPOS\tID\tREF\tALT\tQUAL\tFILTER\tINFO\tFORMAT\ts1\ts2"]
+    inside, outside, seps, badseps = {"VCFMatrixBuffer": ("012.", "3459", "|/", ""),
+                                      "PhasedVCFMatrixBuffer": ("01", "23.", "|", "/"),
+                                      "PhasedHaplotypeVCFMatrixBuffer": ("01234.", "5678", "|", "")}[flavour]
+    rows = []
+    n = rng.choice([1, 2, 3])
+    bad_row, bad_col = rng.randrange(n), rng.randrange(2)
+    for i in range(n):
+        gts = [rng.choice(inside) + rng.choice(seps) + rng.choice(inside) for _ in range(2)]
+        if i == bad_row:
+            g = gts[bad_col]
+            k = rng.choice([0, 2] + ([1] if badseps else []))
+            gts[bad_col] = g[:k] + (rng.choice(badseps) if k == 1 else rng.choice(outside)) + g[k + 1:]
+        rows.append(f"c\t{rng.randrange(1, 10 ** 6)}\t.\tA\tC,G,T,AA,AC,AG,AT,CA,CC\t.\t.\t.\tGT\t" + "\t".join(gts))
+    return head + rows
+
+
 def g_vcf_optional_focus(rng):
     """typed scalar INFO keys (Optional[float] / Optional[int]) whose column mixes: no leading zero ('.5', '-.5'),
     a lone '.' (missing), the key absent, ordinary values — at least two rows"""
@@ -769,6 +816,9 @@ def cases(tier, rng):
     yield from buffer_op_cases(tier, rng)
     for _ in range(60 * mult):
         yield _case("vcf", g_vcf_optional_focus(rng), rng.random() < 0.15, flavour="VCFBuffer")
+    for _ in range(4 * mult):       # a handful: the genotype matrix readers on genotypes outside their supported subset
+        for fl in ("VCFMatrixBuffer", "PhasedVCFMatrixBuffer", "PhasedHaplotypeVCFMatrixBuffer"):
+            yield _case("vcf", g_vcf_many_alleles(rng, fl), False, flavour=fl)
     for fmt, F in FORMATS.items():
         for _ in range(per * 4 if fmt == "vcf" else per):        # six buffer flavours share the VCF budget
             crlf = rng.random() < 0.25
@@ -927,6 +977,10 @@ _SINT = re.compile(r"^[+-]?[0-9]+$")
 _FLOAT = re.compile(r"^[-+]?[0-9]*\.?[0-9]+(e[+-]?[0-9]+)?$")
 
 
+class _Unsupported(Exception):
+    pass
+
+
 class _Bad(Exception):
     pass
 
@@ -1082,6 +1136,10 @@ def _ref_vcf(c):
         pat = {"VCFMatrixBuffer": r"^[012.][|/][012.]$", "PhasedVCFMatrixBuffer": r"^[01]\|[01]$",
                "PhasedHaplotypeVCFMatrixBuffer": r"^[01234.]\|[01234.]$"}[fl]
         if any(not re.match(pat, g) for r in gts for g in r):
+            if all(re.match(r"^[0-9.][|/][0-9.]$", g) for r in gts for g in r):
+                # valid VCF genotypes outside the subset this buffer type supports (allele numbers, '/' or '.' for the
+                # phased flavours): must be REPORTED, never shown as some other genotype
+                raise _Unsupported
             raise _Bad
         if fl == "PhasedHaplotypeVCFMatrixBuffer":
             out.append({"haplotypes": [[g[0] for g in r for g in (g[0], g[2])] for r in gts]})
@@ -1179,7 +1237,10 @@ def oracle(c):
         if any(ord(ch) > 126 or (ord(ch) < 32 and ch not in "\t\n\r") for ch in c["text"]):
             return SKIP
         if fmt == "vcf":
-            return _ref_vcf(c)
+            try:
+                return _ref_vcf(c)
+            except _Unsupported:
+                return {"unsupported": "genotype"}
         if fmt in ("fasta", "fasta2"):
             res = _ref_fasta(c)
         elif fmt == "fastq":
@@ -1253,6 +1314,8 @@ def agree(c, got, exp):
     if c["op"] == "parse2":
         return isinstance(got, dict) and agree(c["first"], got.get("first"), exp["first"]) and \
             agree(c["second"], got.get("second"), exp["second"])
+    if isinstance(exp, dict) and "unsupported" in exp:
+        return isinstance(got, dict) and "err" in got
     return _same(_norm_special(c, got), _conv(exp))
 
 
@@ -1353,6 +1416,8 @@ def finding_key(c, got, exp):
         vals = [r[j] for r in body if len(r) > j]
         if "." in vals and any(v != "." for v in vals):
             return "optional-int:dot-mixed-with-values"
+    if isinstance(exp, dict) and "unsupported" in exp:
+        return f"vcf-genotype-matrix:{c.get('flavour')}:unsupported-genotype-shown-as-another"
     if c.get("flavour") == "VCFWithInfoAsStringBuffer" and "##INFO" in t:
         return "vcf:info-as-string-buffer-with-info-header"
     if fmt == "vcf" and re.search(r"=\.[;\t,]|,\.[;\t,]", t):
